@@ -266,14 +266,15 @@ static void pgsRecord(const Prob& P, const std::string& tag) {
         vh::D("pgs.complementarity_judged"); ++g_compJudged;
     }
     // only unconditional rows + converged  =>  [A+D] pi = rhs on the participating rows, to the convergence tolerance
-    bool onlyUncond = P.uni.empty() && P.bnd.empty() && P.stl.empty() && P.col.empty();
+    bool onlyUncond = P.bnd.empty() && P.stl.empty() && P.col.empty();
+    for (auto& c : P.uni) if (c.type == 2 || !c.Fk.empty()) onlyUncond = false;   // Known/Observing frictionless contacts take no part
     if (onlyUncond && R.conv && !P.part.empty()) {
         long double s2 = 0; for (int r : P.part) s2 += (long double)R.verrOut[r] * R.verrOut[r];
         vh::P("bilateral_solves", key + ".bilateral", std::sqrt((double)s2 / P.part.size()) / P.tol, 5.0);   // theorem: the PRE-update residuals have RMS < tol; the final sweep moves them by at most a modest factor (measured max 1.34)
     }
 }
 
-static void pgsBilateralRecord(const Prob& P0) {
+static void pgsBilateralRecord(const Prob& P0, const std::string& tag = "pgsbil") {
     // solveBilateral: every participating row is its own unconditional constraint
     Prob P = P0; P.uncond.clear(); for (int i : P.part) P.uncond.push_back({i});
     P.vapp.clear(); P.expd.clear(); std::fill(P.piE.begin(), P.piE.end(), 0.0);
@@ -288,14 +289,14 @@ static void pgsBilateralRecord(const Prob& P0) {
     if (conv && !P.part.empty()) {
         long double s2 = 0;
         for (int r : P.part) { long double s = rhs[r]; for (int c : P.part) s -= (long double)P.a(r, c) * pi[c]; s -= (long double)P.D[r] * pi[r]; s2 += s * s; }
-        vh::P("bilateral_solves", "pgsbil.bilateral", std::sqrt((double)s2 / P.part.size()) / P.tol, 5.0);
+        vh::P("bilateral_solves", tag + ".bilateral", std::sqrt((double)s2 / P.part.size()) / P.tol, 5.0);
     }
 }
 
 static void plusRecord(const Prob& P, const std::string& tag) {
     PLUSImpulseSolver plus(1e-3);
     Run R = runSolve(plus, P);
-    bool onlyUncond = P.uni.empty();
+    bool onlyUncond = true; for (auto& c : P.uni) if (c.type == 2 || !c.Fk.empty()) onlyUncond = false;
     std::vector<double> rhs = rhsOf(P);
     double scale = 1; for (double x : rhs) scale = std::max(scale, std::fabs(x));
     const double ctol = 4e-6;      // the exact contract is evaluated at a tolerance above every PLUS predicate bound, so a rejection
@@ -326,7 +327,10 @@ static void plusRecord(const Prob& P, const std::string& tag) {
     if (onlyUncond && !P.part.empty()) {
         double worst = 0;
         for (int r : P.part) { long double s = rhs[r]; for (int c : P.part) s -= (long double)P.a(r, c) * R.pi[c]; s -= (long double)P.D[r] * R.pi[r]; worst = std::max(worst, std::fabs((double)s)); }
-        vh::P("bilateral_solves", key + ".bilateral", worst / scale, 1e-8);
+        // PLUS::solve builds its Newton matrix from A alone ("TODO: D" in the source): with a non-zero D on a participating row the
+        // unconditional rows are not solved - own key
+        bool dOnPart = false; for (int r : P.part) if (P.D[r] != 0) dOnPart = true;
+        vh::P("bilateral_solves", dOnPart ? std::string("plus.solve.nonzero_D_ignored") : key + ".bilateral", worst / scale, 1e-8);
     }
     // friction opposes sliding.  PLUS accumulates the impulse over several "sliding intervals" whose slip directions differ,
     // so the statement is checked where it is unambiguous: a contact reported Sliding whose reported slip velocity is still
@@ -386,6 +390,66 @@ static void plusBoundedChild(vh::Rng& g) {
     vh::P("plus_bounded_row_honoured", "plus.bounded.violated_row_unimplemented", bad, 0);
 }
 
+
+// ------------------------------------------------------------------ bilateral classes (round 2c)
+// PLUSImpulseSolver::solveBilateral: pi = pinv(P (A+D) ~P) P rhs, zero elsewhere.  Judged by the exact-rational contract (`plus`
+// record with every participating row an unconditional constraint) and the residual predicate.
+static void plusBilateralRecord(const Prob& P0, const std::string& tag) {
+    Prob P = P0; P.uncond.clear(); for (int i : P.part) P.uncond.push_back({i});
+    P.uni.clear(); P.vapp.clear(); P.expd.clear(); std::fill(P.piE.begin(), P.piE.end(), 0.0);
+    PLUSImpulseSolver plus(1e-3);
+    int m = P.m; Matrix A(m, m); Vector D(m), rhs(m), pi;
+    for (int r = 0; r < m; ++r) { for (int c = 0; c < m; ++c) A(r, c) = P.a(r, c); D[r] = P.D[r]; rhs[r] = P.verr[r]; }
+    plus.solveBilateral(mx(P.part), A, D, rhs, pi);
+    double scale = 1; for (int r = 0; r < m; ++r) scale = std::max(scale, std::max(std::fabs(P.verr[r]), std::fabs(pi[r])));
+    vh::Line in = vh::I("plus"); encode(in, P); in.d(1).d(4e-6).d(scale); for (int r = 0; r < m; ++r) in.d(pi[r]); in.emit(); ++g_records;
+    std::puts("O plus 1");
+    vh::D(tag);
+    double worst = 0, nonpart = 0; std::vector<bool> isPart(m, false); for (int i : P.part) isPart[i] = true;
+    for (int r = 0; r < m; ++r) if (!isPart[r]) nonpart = std::max(nonpart, std::fabs(pi[r]));
+    for (int r : P.part) { long double s = P.verr[r]; for (int c : P.part) s -= (long double)P.a(r, c) * pi[c]; s -= (long double)P.D[r] * pi[r]; worst = std::max(worst, std::fabs((double)s)); }
+    vh::P("bilateral_solves", tag + ".bilateral", worst / scale, 1e-8);
+    vh::P("nonparticipating_zero", tag + ".nonparticipating", nonpart, 0);
+    ++g_plusJudged;
+}
+// One problem of the class (D class, participating-set class, with/without a Known frictionless contact carrying an expansion
+// impulse on a non-participating row); only unconditional rows participate.
+static int g_bilClasses = 0;
+static Prob genBilateral(vh::Rng& g, int dcls, int pcls, bool withExp) {
+    Prob P; int m = P.m = 6 + g.below(4);
+    std::vector<int> part;
+    if (pcls == 0) for (int i = 0; i < (withExp ? m - 1 : m); ++i) part.push_back(i);                 // all (but the Known row)
+    else if (pcls == 1) for (int i = 0; i < 2 + g.below(m - 3); ++i) part.push_back(i);              // leading prefix
+    else if (pcls == 2) { part = {1, 3, 4}; if (m > 7 && g.coin()) part.push_back(6); }              // scattered, not a prefix
+    else if (pcls == 3) part = {1 + g.below(m - 2)};                                                  // single (not row 0)
+    P.part = part;
+    for (size_t i = 0; i < part.size();) { int k = 1 + g.below(3); std::vector<int> grp; for (int j = 0; j < k && i < part.size(); ++j) grp.push_back(part[i++]); P.uncond.push_back(grp); }
+    int w = m + 2; std::vector<double> B(m * w); for (auto& x : B) x = g.range(-1, 1);
+    P.A.assign(m * m, 0);
+    for (int r = 0; r < m; ++r) for (int c = 0; c <= r; ++c) { double s = 0; for (int k = 0; k < w; ++k) s += B[r * w + k] * B[c * w + k]; if (r == c) s += 0.2; P.A[r * m + c] = P.A[c * m + r] = s; }
+    P.D.assign(m, 0); double u = g.range(0.1, 0.5);
+    for (int r = 0; r < m; ++r) P.D[r] = dcls == 0 ? 0.0 : dcls == 1 ? u : 0.1 + 0.35 * r + g.range(0, 0.1);      // non-uniform: strictly increasing
+    P.piE.assign(m, 0); P.verr.resize(m); for (auto& x : P.verr) x = g.signedMag(0.05, 2);
+    if (withExp) {       // a Known frictionless contact on the last row (never participating) with an expansion impulse
+        UniC c; c.Nk = m - 1; c.sign = g.coin() ? 1 : -1; c.mu = 0.5; c.type = 1; P.uni.push_back(c);
+        P.expd.push_back(c.Nk); P.piE[c.Nk] = -c.sign * g.range(0.05, 1.5);
+    }
+    P.tol = 1e-10; P.maxIters = 1000;
+    return P;
+}
+static void bilateralClasses(vh::Rng& g) {
+    static const char* dn[] = {"Dzero", "Duniform", "Dnonuniform"}; static const char* pn[] = {"all", "prefix", "scattered", "single", "empty"};
+    for (int dcls = 0; dcls < 3; ++dcls) for (int pcls = 0; pcls < 5; ++pcls) {
+        std::string cls = std::string(dn[dcls]) + "." + pn[pcls];
+        for (int e = 0; e < 2; ++e) {
+            Prob P = genBilateral(g, dcls, pcls, e == 1);
+            pgsRecord(P, "bil.solve." + cls + (e ? ".exp" : "")); plusRecord(P, "bil.solve." + cls + (e ? ".exp" : "")); g_bilClasses += 2;
+        }
+        Prob P = genBilateral(g, dcls, pcls, false);
+        pgsBilateralRecord(P, "pgsbil.cls." + cls); plusBilateralRecord(P, "plusbil.cls." + cls); g_bilClasses += 2;
+    }
+}
+
 static void replay() {
     static char buf[1 << 22];
     while (std::fgets(buf, sizeof buf, stdin)) {
@@ -435,12 +499,14 @@ int main(int argc, char** argv) {
         Bnd b0; b0.ix = 0; b0.lb = -1; b0.ub = 1; Bnd b1 = b0; b1.ix = 1; P.bnd = {b0, b1}; P.tol = 1e-6; P.maxIters = 100;
         pgsRecord(P, "fixed");
     }
+    bilateralClasses(g);
     vh::I("summary").emit();
     std::printf("O summary %d\n", g_records);
     double n = (double)args.n;
     vh::P("coverage_floor", "c44.floor.pgs_judged", std::max(0.0, 0.35 * n - g_pgsJudged), 0);
     vh::P("coverage_floor", "c44.floor.pgs_complementarity_judged", std::max(0.0, 0.08 * n - g_compJudged), 0);
     vh::P("coverage_floor", "c44.floor.plus_judged", std::max(0.0, 0.25 * n - g_plusJudged), 0);
+    vh::P("coverage_floor", "c44.floor.bilateral_classes", std::max(0, 90 - g_bilClasses), 0);
     plusBoundedChild(g);
     return 0;
 }
